@@ -860,8 +860,78 @@ pub fn enumerate_buffers(tier: Tier, visit: Visit) -> Report {
     rep
 }
 
+/// n complete CRC-failing candidates `D3 00 00 00 00 00`, then a valid 1005 frame
+fn deep_scan_buffer(n: usize) -> Vec<u8> {
+    let mut b = Vec::with_capacity(6 * n + 25);
+    for _ in 0..n {
+        b.extend_from_slice(&[0xD3, 0, 0, 0, 0, 0]);
+    }
+    b.extend_from_slice(&unhex("D300133ED7D30202980EDEEF34B4BD62AC0941986F33360B98"));
+    b
+}
+
+/// child process of C05's deep scan (`mc C05-DEEP-SCAN <n>`): one scanner call and one iterator pass over
+/// `deep_scan_buffer(n)` on a thread with the default 2 MiB stack; prints what it saw
+pub fn deep_scan_child(n: usize) {
+    let b = deep_scan_buffer(n);
+    let h = std::thread::spawn(move || {
+        let (c, f) = real_scan(&b);
+        let mut it = MsgFrameIter::new(&b);
+        let mut k = 0usize;
+        for _ in &mut it {
+            k += 1;
+            if k > 10 {
+                break;
+            }
+        }
+        format!("consumed={} frame={:?} iterator_frames={} iterator_consumed={}", c, f.map(|(s, e, _)| (s, e)), k, it.consumed())
+    });
+    match h.join() {
+        Ok(s) => println!("{}", s),
+        Err(_) => {
+            println!("panic");
+            std::process::exit(3);
+        }
+    }
+}
+
+/// A scan that has to step over very many complete bad candidates must still return (the scanner may not
+/// consume stack or time per rejected candidate without bound).  Run in a child process, because a stack
+/// overflow aborts the process it happens in.
+fn c05_deep_scan(ctx: &Ctx, rep: &mut Report) {
+    let n = ctx.tier.pick(300_000usize, 3_000_000usize);
+    let exe = match std::env::current_exe() {
+        Ok(e) => e,
+        Err(e) => {
+            println!("MACHINERY-FAILURE: cannot locate the harness binary for the deep-scan child: {}", e);
+            std::process::exit(2);
+        }
+    };
+    let out = match std::process::Command::new(&exe).arg("C05-DEEP-SCAN").arg(n.to_string()).output() {
+        Ok(o) => o,
+        Err(e) => {
+            println!("MACHINERY-FAILURE: cannot start the deep-scan child: {}", e);
+            std::process::exit(2);
+        }
+    };
+    rep.states += 1;
+    rep.transitions += 2;
+    rep.traces += 1;
+    let want = format!("consumed={} frame={:?} iterator_frames=1 iterator_consumed={}", 6 * n + 25, Some((6 * n, 6 * n + 25)), 6 * n + 25);
+    let got = String::from_utf8_lossy(&out.stdout).trim().to_string();
+    let desc = json!({"kind":"deep_scan","candidates":n,"buffer":"n x D3 00 00 00 00 00, then a valid 1005 frame"});
+    if !out.status.success() {
+        rep.violation("C05", "deep-scan:abort".into(), format!("scanning {} complete bad candidates in front of a valid frame ends the process abnormally ({}; output {:?}) instead of delivering the frame", n, out.status, got.chars().take(80).collect::<String>()), n as u64, desc);
+    } else if got != want {
+        rep.violation("C05", "deep-scan:result".into(), format!("scanning {} complete bad candidates in front of a valid frame gives {:?}, expected {:?}", n, got, want), n as u64, desc);
+    } else {
+        rep.outcome("deep-scan-delivered");
+    }
+}
+
 pub fn c05(ctx: &Ctx) -> (Report, Meta) {
     let mut rep = enumerate_buffers(ctx.tier, &|rep, buf, desc| c05_check(rep, buf, desc));
+    c05_deep_scan(ctx, &mut rep);
     let maxlen = ctx.tier.pick(9usize, 10usize);
     let depth = ctx.tier.pick(4usize, 5usize);
     let alpha = c05_alphabet();
@@ -871,7 +941,7 @@ pub fn c05(ctx: &Ctx) -> (Report, Meta) {
     rep.sample(json!({"tokens":["1005[..12]","L0"],"expect":"stalled on the incomplete candidate at 0"}));
     rep.sample(json!({"tokens":["outer-badcrc"],"expect":"inner L0 frame delivered after skip"}));
     let meta = Meta {
-        rule: "every byte string over {D3,D2,00,c1,c2,c3,01} (c1..c3 = CRC of D3 00 00) up to maxlen; every sequence of <= depth tokens (valid frames, nested frame, damaged frames, truncation classes, stray bytes, header announcing 1023 bytes); long buffers beyond 1029 bytes. Each buffer: next_msg_frame vs. reference scanner, derived dead-byte check, MsgFrameIter vs. repeated reference scans. distinct_nontrivial = buffers in which a frame was delivered".into(),
+        rule: "every byte string over {D3,D2,00,c1,c2,c3,01} (c1..c3 = CRC of D3 00 00) up to maxlen; every sequence of <= depth tokens (valid frames, nested frame, damaged frames, truncation classes, stray bytes, header announcing 1023 bytes); long buffers beyond 1029 bytes; one buffer of 300 000 (thorough 3 000 000) complete bad candidates in front of a valid frame, scanned in a child process on a 2 MiB stack. Each buffer: next_msg_frame vs. reference scanner, derived dead-byte check, MsgFrameIter vs. repeated reference scans. distinct_nontrivial = buffers in which a frame was delivered".into(),
         exhaustive: true,
         bounds: json!({"string_maxlen": maxlen, "token_depth": depth, "tokens": toks.iter().map(|t| t.0).collect::<Vec<_>>()}),
         assumptions: vec![],
